@@ -32,7 +32,7 @@ def _work(a):
         lg = codec.QueryLog(); lg.unknown.append(f"build failed: {str(e)[-300:]}")
         return [(ti, on, "build", lg, None, 0.0, None)]
     mx = codec.max_bytes(t)
-    small = sorted({0, 1, mx // 2, max(mx - 1, 0)} - {mx}) if _TIER[0] == "quick" else list(range(0, mx))
+    small = sorted({0, 1, mx // 2, max(mx - 1, 0)} - {mx}) if (_TIER[0] == "quick" or cc.ser_only(t)) else list(range(0, mx))
     for bs in small:
         t0 = time.time()
         try:   # (b) every buffer below the maximum is refused with buffer-too-small, nothing is written anywhere
